@@ -122,6 +122,7 @@ Definition S2C (st : bstate) (buf inbox wire : bytes) (rs : list sresp) : Prop :
 Record Rel (x : xsys) (s : asys) : Prop := mkRel {
   r_h : x_h x = HDone;
   r_client : x_client x = true;
+  r_failed : x_failed x = false;
   r_spawned : x_spawned x = true;
   r_eof : x_eof x = false;
   r_rerr : x_rerr x = false;
@@ -146,6 +147,15 @@ Record Rel (x : xsys) (s : asys) : Prop := mkRel {
   r_s2c_wf : Forall wf_s (a_s2c s);
   r_s2c : S2C (x_bst x) (x_buf x) (x_inbox x) (x_s2c x) (a_s2c s)
 }.
+
+(* the text of a segment while the loop is alive (DriverLoop.show_seg) *)
+Definition seg_text (g : seg) : bytes :=
+  b "[" ++ join [59]
+    ((match g_w g with [] => [] | w => [b "w:" ++ hex w] end) ++
+     g_conn g ++
+     map (fun r => b "r" ++ show_N (fst r) ++ [61] ++ snd r) (sort_res (g_res g)) ++
+     g_ev g ++
+     (if g_panic g then [b "PANIC"] else [])) ++ b "]".
 
 (* what a segment shows for a reply / an event *)
 Definition res_text (r : N * response) : N * bytes :=
